@@ -544,6 +544,88 @@ def gen_move(rng, idx, salt=0):
                            kinds=sorted(kinds) or ["single-carrier"])
 
 
+def gen_oversize(rng, idx):
+    """One carrier's OVERSIZED packet must not affect the other sessions. 1..2 sessions transfer; in mid-transfer some carrier
+    (valid token) delivers ONE encapsulated data chunk of 1501..65535 bytes - legal in the encapsulation, longer than the
+    1500-byte buffer kcp-go's listener reads into (QueuePacketConn.ReadFrom truncates it, KCP discards the stump): either a
+    carrier of its own, with a fresh ClientID, or the carrier of one of the sessions. Afterwards the sessions finish their
+    transfer in both directions, and a NEW session that starts only then is accepted and read to the end.
+    These scenarios run against a server of their own (second c05bb process), so that whatever the packet does is
+    attributed to it."""
+    sid_hex = scen_id(idx, 0xb5)
+    nsess = rng.randrange(1, 3)
+    L = rng.choice([1501, 1501, 1502, 1600, 2000, 4096, 8192, 16384, 65535])
+    own = rng.random() < 0.4          # on the carrier of session 0 (else: a carrier and ClientID of its own)
+    S = []
+    for j in range(nsess + 1):        # the last one starts after the oversized packet
+        cid = "%016x" % rng.getrandbits(64)
+        conv = rng.getrandbits(32) | 0x01000000
+        app = bytes.fromhex(sid_hex) + bytes([j]) + bytes(rng.randrange(256) for _ in range(rng.choice([60, 200, 500])))
+        stream = smux_frame(0, 3) + smux_frame(2, 3, app[:8]) + b"".join(smux_frame(2, 3, app[i:i + 64]) for i in range(8, len(app), 64))
+        n0 = 24
+        segs = [kcp_seg(conv, 0, stream[:n0])] + [kcp_seg(conv, 1 + k, stream[i:i + 48]) for k, i in enumerate(range(n0, len(stream), 48))]
+        down = bytes(rng.randrange(256) for _ in range(rng.choice([1, 40, 300])))
+        S.append(dict(j=j, cid=cid, conv=conv, app=app, segs=segs, down=down, carriers=[]))
+    ops, mops = ["i" + sid_hex], []
+    now = [rng.choice([0, 7, 1700000000000])]
+    ncar = [0]
+
+    def send(i, hexbytes, exp=""):
+        ops.append("r%d:x%s%s" % (i, hexbytes, exp))
+        for q in range(0, len(hexbytes), 800):
+            now[0] += rng.choice([0, 1])
+            mops.append("r%d:x%s:%d" % (i, hexbytes[q:q + 800], now[0]))
+
+    def carrier(cid):
+        i = ncar[0]
+        ncar[0] += 1
+        ops.append("n"); mops.append("n")
+        send(i, TOKEN + cid)
+        return i
+
+    def seghex(seg):
+        return prefix(len(seg)) + seg.hex()
+
+    for k, s_ in enumerate(S[:nsess]):
+        i = carrier(s_["cid"])
+        s_["carriers"].append(i)
+        half = max(1, len(s_["segs"]) // 2)
+        s_["half"] = half
+        send(i, "".join(seghex(x) for x in s_["segs"][:half]), "@a%d" % (k + 1))
+        ops.append("w%d:x%s" % (s_["j"], s_["down"][:len(s_["down"]) // 2].hex()))
+    # ---- the oversized packet: a KCP push header whose length field claims the whole chunk, then filler
+    if own:
+        oc, oconv, osn = S[0]["carriers"][0], S[0]["conv"], 0x7fff0000 + rng.randrange(1000)
+        ocid = S[0]["cid"]
+    else:
+        ocid = "%016x" % rng.getrandbits(64)
+        oc, oconv, osn = carrier(ocid), rng.getrandbits(32) | 0x02000000, 0
+    big = kcp_seg(oconv, osn, bytes((7 * x + idx) & 255 for x in range(L - 24)))
+    assert len(big) == L
+    send(oc, seghex(big))
+    ops.append("g30")      # (no expectation to wait for: the packet must have NO visible effect)
+    # ---- afterwards: the sessions finish, a new one starts and finishes
+    for s_ in S[:nsess]:
+        i = s_["carriers"][0]
+        send(i, "".join(seghex(x) for x in s_["segs"][s_["half"]:]))
+        ops.append("w%d:x%s" % (s_["j"], s_["down"][len(s_["down"]) // 2:].hex()))
+    late = S[nsess]
+    i = carrier(late["cid"])
+    late["carriers"].append(i)
+    send(i, "".join(seghex(x) for x in late["segs"]), "@a%d" % (nsess + 1))
+    ops.append("w%d:x%s" % (late["j"], late["down"].hex()))
+    total = sum(len(s_["app"]) - 5 for s_ in S)
+    fin = "z@a%d@t%d" % (nsess + 1, total)
+    for s_ in S:
+        fin += "@e%s=%d" % ("+".join(map(str, s_["carriers"])), len(s_["down"]))
+    ops.append(fin)
+    model = L <= 2000
+    return ops, mops, dict(sid=sid_hex, ncar=ncar[0], tokenless=[], model=model, oversize=dict(L=L, own=own, carrier=oc, cid=ocid),
+                           sessions=[dict(j=s_["j"], cid=s_["cid"], conv=s_["conv"], app=s_["app"].hex(), down=s_["down"].hex(),
+                                          carriers=s_["carriers"], last=s_["carriers"][-1]) for s_ in S],
+                           kinds=["oversized-packet-" + ("own-carrier" if own else "other-clientid") + ("" if model else "-implementation-only")])
+
+
 def gen_move_long(rng, idx, gap_ms=95000):
     """one session whose only carrier is cut in mid-transfer; NO carrier for longer than retention + sweep period (really
     waited for: thorough tier only); then a new carrier re-sends everything. The client map has forgotten the session
